@@ -12,6 +12,7 @@
 //     constants, && and ||) and the guards of String and Len (with the fixed statement shape
 //     around them checked, not assumed);
 //   - the shape of the keyword map initialisation and of tpl ForEach (loop bounds).
+//
 // Anything else in these positions is refused ("tie broken").
 package main
 
